@@ -5,7 +5,8 @@
  *
  * Script (written by lib/checks/c14.py from TLC's "@@" JSON lines), one record per line:
  *   STR <id> <hex|->                  string table (strvector cells)
- *   H <id>                            start of a history
+ *   H <id> [palette]                  start of a history; palette = small | huge | frac: how the value CODES of the
+ *                                     specification become cell values (strictly increasing, 0 -> 0; see pal_d/pal_u/pal_i)
  *   O <step> <name> <rel> <oor> <args...>   one API call (slots are pool indices, vectors are <len> <v...>)
  *   E <kind> <slot> <live> ...        spec post-state of a slot the call may have changed
  * Every history runs in its own child process; stderr of the child goes to <out>.err so a sanitizer report is
@@ -13,7 +14,14 @@
  * normally with the state unchanged, or a clean abort() (SIGABRT without a sanitizer report), are accepted.
  * After every call: liveness, dims and every cell of every pool slot are compared with the shadow state, and
  * no two live containers may share an owned pointer (copies are deep).
- * Result lines: {"h":id,"res":"ok"|"mismatch"|"alias"|"san"|"abort"|"signal"|"timeout"|"script",...}
+ * Sort calls additionally write what was OBSERVED (the container as codes before and after the call) to <out>.obs
+ * ("SortMx" / "SortVec" events); TLC judges them against ContainerLaws.tla (spec/TraceContainers.tla).  After a matrix
+ * sort whose keys tie between different rows (several admissible results) the real matrix is set to the representative
+ * the shadow model continues with, once its shape has been compared.
+ * Return values of the query routines outside C14's statement (ValInMatrix, MatrixColumnMinMax) that differ from the
+ * model are recorded as "extras" and do not end the history.
+ * "reuse" counts creations that got the address of a container freed earlier in the same history (K7).
+ * Result lines: {"h":id,"res":"ok"|"mismatch"|"alias"|"san"|"abort"|"signal"|"timeout"|"script","reuse":n,"extras":[...],...}
  */
 #include "scientific.h"
 #include "verif_rt.h"
@@ -24,7 +32,7 @@
 void MatrixAppendUICol(matrix *m, uivector *col);   /* defined in matrix.c, missing from matrix.h */
 
 #define P 8     /* pool slots per kind (spec uses <= 4) */
-#define MD 10   /* bound on any dimension (spec uses <= 6) */
+#define MD 72   /* bound on any dimension (spec uses <= 66) */
 enum { KDV, KUV, KIV, KSV, KMX, KTN, KDL, NK };
 static const char *KN[NK] = {"dv", "uv", "iv", "sv", "mx", "tn", "dl"};
 
@@ -40,15 +48,45 @@ static matrix *mx[P]; static tensor *tn[P]; static dvectorlist *dl[P];
 #define NSTR 256
 static char *strtab[NSTR];
 
-typedef struct { int step, nsteps, oor_abort, oor_ret, ops; char op[64], rel[24], what[400]; } Shared;
+typedef struct { int step, nsteps, oor_abort, oor_ret, ops, reuse, nextra; char op[64], rel[24], what[400], extra[4][240]; } Shared;
 static Shared *sh;
+static FILE *obs;            /* observation events of the running history (child) */
+static int sorted_slot = -1; /* matrix slot the last call sorted */
+static long cur_hid;
+
+/* ---------------------------------------------------------------- value palettes (code -> cell value) */
+enum { PAL_SMALL, PAL_HUGE, PAL_FRAC };
+static int pal = PAL_SMALL;
+static const double HUGE_D[6] = {0.0, 1.0, 2147483653.0, 4294967297.0, 12884901889.0, 21474836481.0};   /* 2^31+5, 2^32+1, +2^33, +2^34: exact as double and size_t, < 2^43 */
+static const int HUGE_I[4] = {0, 1, 65537, 2147483647};
+static void pal_bad(long c){ snprintf(sh->what, sizeof sh->what, "script: value code %ld outside the palette", c); _exit(7); }
+static double pal_d(long c){ long a = c < 0 ? -c : c; double v;
+  if(pal == PAL_HUGE){ if(a > 5) pal_bad(c); v = HUGE_D[a]; } else if(pal == PAL_FRAC) v = (double)a / 10.0; else v = (double)a;
+  return c < 0 ? -v : v; }
+static size_t pal_u(long c){ if(c < 0) pal_bad(c); if(pal == PAL_HUGE){ if(c > 5) pal_bad(c); return (size_t)HUGE_D[c]; } return (size_t)c; }
+static int pal_i(long c){ long a = c < 0 ? -c : c; int v; if(pal == PAL_HUGE){ if(a > 3) pal_bad(c); v = HUGE_I[a]; } else v = (int)a; return c < 0 ? -v : v; }
+/* inverse (observation events): the code of a cell value, 999999 when it is no value of the palette */
+static long code_d(double v){ for(long c = -8; c <= 8; c++){ if(pal == PAL_HUGE && (c > 5 || c < -5)) continue; if(pal_d(c) == v) return c; } return 999999; }
+static long code_u(size_t v){ for(long c = 0; c <= 8; c++){ if(pal == PAL_HUGE && c > 5) continue; if(pal_u(c) == v) return c; } return 999999; }
+
+static void dimchk(long n);
+/* ---------------------------------------------------------------- address reuse (K7) */
+static uintptr_t freed[4096]; static int nfreed;
+static void note_free(const void *p){ if(p && nfreed < 4096) freed[nfreed++] = (uintptr_t)p; }
+static void note_new(const void *p){ uintptr_t a = (uintptr_t)p; if(!p) return; for(int i = 0; i < nfreed; i++) if(freed[i] == a){ sh->reuse++; freed[i] = freed[--nfreed]; return; } }
 
 enum { RC_OK = 0, RC_MISMATCH = 3, RC_ALIAS = 4, RC_OORSAN = 5, RC_OORSIG = 6, RC_SCRIPT = 7 };
 
 /* ---------------------------------------------------------------- token reader */
-typedef struct { char **tok; int n, i; } Toks;
-static long tk(Toks *t){ if(t->i >= t->n){ snprintf(sh->what, sizeof sh->what, "script: missing token"); _exit(RC_SCRIPT); } return strtol(t->tok[t->i++], NULL, 10); }
-static char *tks(Toks *t){ if(t->i >= t->n){ snprintf(sh->what, sizeof sh->what, "script: missing token"); _exit(RC_SCRIPT); } return t->tok[t->i++]; }
+/* streaming reader over one script line (an expectation line of a 65x65 matrix has thousands of tokens) */
+typedef struct { char *p; } Toks;
+static char *tks(Toks *t){
+  char *s = t->p; while(*s == ' ' || *s == '\t' || *s == '\r' || *s == '\n') s++;
+  if(!*s){ snprintf(sh->what, sizeof sh->what, "script: missing token"); _exit(RC_SCRIPT); }
+  char *e = s; while(*e && *e != ' ' && *e != '\t' && *e != '\r' && *e != '\n') e++;
+  if(*e){ *e = 0; t->p = e + 1; } else t->p = e;
+  return s; }
+static long tk(Toks *t){ return strtol(tks(t), NULL, 10); }
 static int split(char *line, char **tok, int max){ int n = 0; char *s = strtok(line, " \t\r\n"); while(s && n < max){ tok[n++] = s; s = strtok(NULL, " \t\r\n"); } return n; }
 
 /* ---------------------------------------------------------------- comparison with the shadow state */
@@ -57,7 +95,7 @@ static int split(char *line, char **tok, int max){ int n = 0; char *s = strtok(l
 static int cmp_mat(const char *who, int x, int k, matrix *m, XMat *e){
   if((int)m->row != e->row || (int)m->col != e->col) FAIL(RC_MISMATCH, "%s[%d]%s%d dims got %zux%zu want %dx%d", who, x, k >= 0 ? " layer " : "", k >= 0 ? k : 0, m->row, m->col, e->row, e->col);
   for(int i = 0; i < e->row; i++) for(int j = 0; j < e->col; j++)
-    if(!(m->data[i][j] == (double)e->c[i][j])) FAIL(RC_MISMATCH, "%s[%d]%s%d cell[%d][%d] got %g want %ld", who, x, k >= 0 ? " layer " : "", k >= 0 ? k : 0, i, j, m->data[i][j], e->c[i][j]);
+    if(!(m->data[i][j] == pal_d(e->c[i][j]))) FAIL(RC_MISMATCH, "%s[%d]%s%d cell[%d][%d] got %.17g want %.17g (code %ld)", who, x, k >= 0 ? " layer " : "", k >= 0 ? k : 0, i, j, m->data[i][j], pal_d(e->c[i][j]), e->c[i][j]);
   return 0;
 }
 
@@ -66,13 +104,13 @@ static int compare_all(void){
   for(int x = 0; x < P; x++){
     if((dv[x] != NULL) != xv[KDV][x].live) FAIL(RC_MISMATCH, "dv[%d] liveness got %d want %d", x, dv[x] != NULL, xv[KDV][x].live);
     if(dv[x]){ XVec *e = &xv[KDV][x]; if((int)dv[x]->size != e->n) FAIL(RC_MISMATCH, "dv[%d] size got %zu want %d", x, dv[x]->size, e->n);
-      for(int i = 0; i < e->n; i++) if(!(dv[x]->data[i] == (double)e->d[i])) FAIL(RC_MISMATCH, "dv[%d] cell[%d] got %g want %ld", x, i, dv[x]->data[i], e->d[i]); }
+      for(int i = 0; i < e->n; i++) if(!(dv[x]->data[i] == pal_d(e->d[i]))) FAIL(RC_MISMATCH, "dv[%d] cell[%d] got %.17g want %.17g (code %ld)", x, i, dv[x]->data[i], pal_d(e->d[i]), e->d[i]); }
     if((uv[x] != NULL) != xv[KUV][x].live) FAIL(RC_MISMATCH, "uv[%d] liveness got %d want %d", x, uv[x] != NULL, xv[KUV][x].live);
     if(uv[x]){ XVec *e = &xv[KUV][x]; if((int)uv[x]->size != e->n) FAIL(RC_MISMATCH, "uv[%d] size got %zu want %d", x, uv[x]->size, e->n);
-      for(int i = 0; i < e->n; i++) if(uv[x]->data[i] != (size_t)e->d[i]) FAIL(RC_MISMATCH, "uv[%d] cell[%d] got %zu want %ld", x, i, uv[x]->data[i], e->d[i]); }
+      for(int i = 0; i < e->n; i++) if(uv[x]->data[i] != pal_u(e->d[i])) FAIL(RC_MISMATCH, "uv[%d] cell[%d] got %zu want %zu (code %ld)", x, i, uv[x]->data[i], pal_u(e->d[i]), e->d[i]); }
     if((iv[x] != NULL) != xv[KIV][x].live) FAIL(RC_MISMATCH, "iv[%d] liveness got %d want %d", x, iv[x] != NULL, xv[KIV][x].live);
     if(iv[x]){ XVec *e = &xv[KIV][x]; if((int)iv[x]->size != e->n) FAIL(RC_MISMATCH, "iv[%d] size got %zu want %d", x, iv[x]->size, e->n);
-      for(int i = 0; i < e->n; i++) if(iv[x]->data[i] != (int)e->d[i]) FAIL(RC_MISMATCH, "iv[%d] cell[%d] got %d want %ld", x, i, iv[x]->data[i], e->d[i]); }
+      for(int i = 0; i < e->n; i++) if(iv[x]->data[i] != pal_i(e->d[i])) FAIL(RC_MISMATCH, "iv[%d] cell[%d] got %d want %d (code %ld)", x, i, iv[x]->data[i], pal_i(e->d[i]), e->d[i]); }
     if((sv[x] != NULL) != xs[x].live) FAIL(RC_MISMATCH, "sv[%d] liveness got %d want %d", x, sv[x] != NULL, xs[x].live);
     if(sv[x]){ XVec *e = &xs[x]; if((int)sv[x]->size != e->n) FAIL(RC_MISMATCH, "sv[%d] size got %zu want %d", x, sv[x]->size, e->n);
       for(int i = 0; i < e->n; i++){ if(e->d[i] < 0) continue;      /* slot of NewStrVector(n) not yet set: content undefined, not read */
@@ -88,7 +126,7 @@ static int compare_all(void){
     if(dl[x]){ XLst *e = &xl[x]; if((int)dl[x]->size != e->n) FAIL(RC_MISMATCH, "dl[%d] size got %zu want %d", x, dl[x]->size, e->n);
       for(int k = 0; k < e->n; k++){ dvector *d = dl[x]->d[k]; if(d == NULL) FAIL(RC_MISMATCH, "dl[%d] element %d is NULL", x, k);
         if((int)d->size != e->d[k].n) FAIL(RC_MISMATCH, "dl[%d] element %d size got %zu want %d", x, k, d->size, e->d[k].n);
-        for(int i = 0; i < e->d[k].n; i++) if(!(d->data[i] == (double)e->d[k].d[i])) FAIL(RC_MISMATCH, "dl[%d] element %d cell[%d] got %g want %ld", x, k, i, d->data[i], e->d[k].d[i]); } }
+        for(int i = 0; i < e->d[k].n; i++) if(!(d->data[i] == pal_d(e->d[k].d[i]))) FAIL(RC_MISMATCH, "dl[%d] element %d cell[%d] got %.17g want %.17g (code %ld)", x, k, i, d->data[i], pal_d(e->d[k].d[i]), e->d[k].d[i]); } }
   }
   return 0;
 }
@@ -117,122 +155,181 @@ static int alias_check(void){
 }
 
 /* ---------------------------------------------------------------- expected post-state lines */
-static void read_xvec(Toks *t, XVec *e){ e->live = (int)tk(t); e->n = 0; if(!e->live) return; e->n = (int)tk(t); for(int i = 0; i < e->n; i++) e->d[i] = tk(t); }
-static void read_xmat(Toks *t, XMat *e){ e->live = (int)tk(t); e->row = e->col = 0; if(!e->live) return; e->row = (int)tk(t); e->col = (int)tk(t); for(int i = 0; i < e->row; i++) for(int j = 0; j < e->col; j++) e->c[i][j] = tk(t); }
+static void dimchk(long n){ if(n < 0 || n > MD){ snprintf(sh->what, sizeof sh->what, "script: dimension %ld beyond the harness bound %d", n, MD); _exit(RC_SCRIPT); } }
+static void read_xvec(Toks *t, XVec *e){ e->live = (int)tk(t); e->n = 0; if(!e->live) return; e->n = (int)tk(t); dimchk(e->n); for(int i = 0; i < e->n; i++) e->d[i] = tk(t); }
+static void read_xmat(Toks *t, XMat *e){ e->live = (int)tk(t); e->row = e->col = 0; if(!e->live) return; e->row = (int)tk(t); e->col = (int)tk(t); dimchk(e->row); dimchk(e->col); for(int i = 0; i < e->row; i++) for(int j = 0; j < e->col; j++) e->c[i][j] = tk(t); }
 static void apply_expect(Toks *t){
   int k = (int)tk(t), x = (int)tk(t);
   if(k <= KIV) read_xvec(t, &xv[k][x]);
   else if(k == KSV) read_xvec(t, &xs[x]);
   else if(k == KMX) read_xmat(t, &xm[x]);
-  else if(k == KTN){ XTen *e = &xt[x]; e->live = (int)tk(t); e->n = 0; if(e->live){ e->n = (int)tk(t); for(int q = 0; q < e->n; q++) read_xmat(t, &e->m[q]); } }
-  else if(k == KDL){ XLst *e = &xl[x]; e->live = (int)tk(t); e->n = 0; if(e->live){ e->n = (int)tk(t); for(int q = 0; q < e->n; q++){ e->d[q].live = 1; e->d[q].n = (int)tk(t); for(int i = 0; i < e->d[q].n; i++) e->d[q].d[i] = tk(t); } } }
+  else if(k == KTN){ XTen *e = &xt[x]; e->live = (int)tk(t); e->n = 0; if(e->live){ e->n = (int)tk(t); dimchk(e->n); for(int q = 0; q < e->n; q++) read_xmat(t, &e->m[q]); } }
+  else if(k == KDL){ XLst *e = &xl[x]; e->live = (int)tk(t); e->n = 0; if(e->live){ e->n = (int)tk(t); dimchk(e->n); for(int q = 0; q < e->n; q++){ e->d[q].live = 1; e->d[q].n = (int)tk(t); dimchk(e->d[q].n); for(int i = 0; i < e->d[q].n; i++) e->d[q].d[i] = tk(t); } } }
 }
 
 /* ---------------------------------------------------------------- operands built for a call */
-static dvector *mk_dv(Toks *t){ int n = (int)tk(t); dvector *v; NewDVector(&v, n); for(int i = 0; i < n; i++) v->data[i] = (double)tk(t); return v; }
-static uivector *mk_uv(Toks *t){ int n = (int)tk(t); uivector *v; NewUIVector(&v, n); for(int i = 0; i < n; i++) v->data[i] = (size_t)tk(t); return v; }
+/* operands keep a snapshot: a call must leave the operand it was given as it was (FrameLaw: only the declared slots change) */
+static double opnd_d[MD * MD + 8]; static size_t opnd_u[MD + 8]; static int opnd_n;
+static dvector *mk_dv(Toks *t){ int n = (int)tk(t); dimchk(n); dvector *v; NewDVector(&v, n); for(int i = 0; i < n; i++) opnd_d[i] = v->data[i] = pal_d(tk(t)); opnd_n = n; return v; }
+static uivector *mk_uv(Toks *t){ int n = (int)tk(t); dimchk(n); uivector *v; NewUIVector(&v, n); for(int i = 0; i < n; i++) opnd_u[i] = v->data[i] = pal_u(tk(t)); opnd_n = n; return v; }
+static int same_dv(const char *name, dvector *v){ if((int)v->size != opnd_n) FAIL(RC_MISMATCH, "%s changed the size of its operand vector: %zu, was %d", name, v->size, opnd_n);
+  for(int i = 0; i < opnd_n; i++) if(!(v->data[i] == opnd_d[i])) FAIL(RC_MISMATCH, "%s changed cell %d of its operand vector: %.17g, was %.17g", name, i, v->data[i], opnd_d[i]); return 0; }
+static int same_uv(const char *name, uivector *v){ if((int)v->size != opnd_n) FAIL(RC_MISMATCH, "%s changed the size of its operand vector: %zu, was %d", name, v->size, opnd_n);
+  for(int i = 0; i < opnd_n; i++) if(v->data[i] != opnd_u[i]) FAIL(RC_MISMATCH, "%s changed cell %d of its operand vector: %zu, was %zu", name, i, v->data[i], opnd_u[i]); return 0; }
 
 /* index tokens >= 1000001 are codes of far out-of-range indices (FarIdx of Containers.tla) */
 static size_t ix(long v){ switch(v){ case 1000001: return (size_t)-1; case 1000002: return (size_t)1 << 63; case 1000003: return ((size_t)1 << 63) + 1; case 1000004: return (size_t)1 << 32; default: return (size_t)v; } }
 #define IS(s) (strcmp(name, s) == 0)
 #define RETCHK(got, fmt) do{ long want_ = tk(t); if((long)(got) != want_){ snprintf(sh->what, sizeof sh->what, "%s returned " fmt " want %ld", name, (got), want_); return RC_MISMATCH; } }while(0)
+#define EXTRA(...) do{ if(sh->nextra < 4) snprintf(sh->extra[sh->nextra++], sizeof sh->extra[0], __VA_ARGS__); }while(0)
+
+/* ---------------------------------------------------------------- observation events (judged by TLC, TraceContainers.tla) */
+static void obs_mat(const char *key, matrix *m){
+  fprintf(obs, "\"%s\":[", key);
+  for(size_t i = 0; i < m->row; i++){ fprintf(obs, "%s[", i ? "," : ""); for(size_t j = 0; j < m->col; j++) fprintf(obs, "%s%ld", j ? "," : "", code_d(m->data[i][j])); fprintf(obs, "]"); }
+  fprintf(obs, "]");
+}
+static void obs_head(const char *e){ fprintf(obs, "{\"e\":\"%s\",\"h\":%ld,\"step\":%d,", e, cur_hid, sh->step); }
+
+/* the string SplitString is given: the fields joined with ';' and decorated (Containers.tla, SvSplit) */
+static char *split_arg(Toks *t){
+  int n = (int)tk(t); static char buf[1024]; char body[900]; body[0] = 0; int ids[16];
+  if(n > 16){ snprintf(sh->what, sizeof sh->what, "script: too many fields"); _exit(RC_SCRIPT); }
+  for(int i = 0; i < n; i++) ids[i] = (int)tk(t);
+  int decor = (int)tk(t);
+  if(decor & 2) strcat(body, ";");
+  for(int i = 0; i < n; i++){ if(i) strcat(body, (decor & 2) ? ";;" : ";"); strcat(body, strtab[ids[i]]); }
+  if(decor & 2) strcat(body, ";");
+  snprintf(buf, sizeof buf, "%s%s%s", (decor & 1) ? " \t " : "", body, (decor & 1) ? "  \t" : "");
+  return buf;
+}
 
 /* execute one call; returns 0 or RC_MISMATCH (wrong return value) */
 static int exec_op(const char *name, int oor, Toks *t){
   /* ---- dvector */
-  if(IS("NewDVector")){ int x = tk(t), n = tk(t); NewDVector(&dv[x], n); }
-  else if(IS("initDVector")){ int x = tk(t); initDVector(&dv[x]); }
-  else if(IS("DelDVector")){ int x = tk(t); DelDVector(&dv[x]); dv[x] = NULL; }
+  if(IS("NewDVector")){ int x = tk(t), n = tk(t); NewDVector(&dv[x], n); note_new(dv[x]); }
+  else if(IS("initDVector")){ int x = tk(t); initDVector(&dv[x]); note_new(dv[x]); }
+  else if(IS("DelDVector")){ int x = tk(t); note_free(dv[x]); DelDVector(&dv[x]); dv[x] = NULL; }
   else if(IS("DVectorResize")){ int x = tk(t), n = tk(t); DVectorResize(dv[x], n); }
-  else if(IS("DVectorAppend")){ int x = tk(t); long v = tk(t); DVectorAppend(dv[x], (double)v); }
+  else if(IS("DVectorAppend")){ int x = tk(t); long v = tk(t); DVectorAppend(dv[x], pal_d(v)); }
   else if(IS("DVectorRemoveAt")){ int x = tk(t); size_t i = ix(tk(t)); DVectorRemoveAt(dv[x], i); }
   else if(IS("DVectorCopy")){ int s = tk(t), d = tk(t); DVectorCopy(dv[s], dv[d]); }
-  else if(IS("DVectorExtend")){ int a = tk(t), b = tk(t), y = tk(t); dv[y] = DVectorExtend(dv[a], dv[b]); }
-  else if(IS("setDVectorValue")){ int x = tk(t); size_t i = ix(tk(t)); long v = tk(t); setDVectorValue(dv[x], i, (double)v); }
-  else if(IS("getDVectorValue")){ int x = tk(t); size_t i = ix(tk(t)); double r = getDVectorValue(dv[x], i); if(!oor){ long w = tk(t); if(!(r == (double)w)){ snprintf(sh->what, sizeof sh->what, "getDVectorValue returned %g want %ld", r, w); return RC_MISMATCH; } } }
-  else if(IS("DVectorHasValue")){ int x = tk(t); long v = tk(t); int r = DVectorHasValue(dv[x], (double)v); RETCHK(r, "%d"); }
-  else if(IS("DVectorSet")){ int x = tk(t); long v = tk(t); DVectorSet(dv[x], (double)v); }
-  else if(IS("DVectorSort")){ int x = tk(t); DVectorSort(dv[x]); }
+  else if(IS("DVectorExtend")){ int a = tk(t), b = tk(t), y = tk(t); dv[y] = DVectorExtend(dv[a], dv[b]); note_new(dv[y]); }
+  else if(IS("setDVectorValue")){ int x = tk(t); size_t i = ix(tk(t)); long v = tk(t); setDVectorValue(dv[x], i, pal_d(v)); }
+  else if(IS("getDVectorValue")){ int x = tk(t); size_t i = ix(tk(t)); double r = getDVectorValue(dv[x], i); if(!oor){ long w = tk(t); if(!(r == pal_d(w))){ snprintf(sh->what, sizeof sh->what, "getDVectorValue returned %.17g want %.17g", r, pal_d(w)); return RC_MISMATCH; } } }
+  else if(IS("DVectorHasValue")){ int x = tk(t); long v = tk(t); int r = DVectorHasValue(dv[x], pal_d(v)); RETCHK(r, "%d"); }
+  else if(IS("DVectorSet")){ int x = tk(t); long v = tk(t); DVectorSet(dv[x], pal_d(v)); }
+  else if(IS("DVectorSort")){ int x = tk(t);
+    obs_head("SortVec"); fprintf(obs, "\"kind\":\"dv\",\"pre\":["); for(size_t i = 0; i < dv[x]->size; i++) fprintf(obs, "%s%ld", i ? "," : "", code_d(dv[x]->data[i])); fprintf(obs, "],");
+    DVectorSort(dv[x]);
+    fprintf(obs, "\"post\":["); for(size_t i = 0; i < dv[x]->size; i++) fprintf(obs, "%s%ld", i ? "," : "", code_d(dv[x]->data[i])); fprintf(obs, "]}\n"); fflush(obs); }
+  else if(IS("PrintDVector")){ int x = tk(t); PrintDVector(dv[x]); }
   /* ---- uivector */
-  else if(IS("NewUIVector")){ int x = tk(t), n = tk(t); NewUIVector(&uv[x], n); }
-  else if(IS("initUIVector")){ int x = tk(t); initUIVector(&uv[x]); }
-  else if(IS("DelUIVector")){ int x = tk(t); DelUIVector(&uv[x]); uv[x] = NULL; }
+  else if(IS("NewUIVector")){ int x = tk(t), n = tk(t); NewUIVector(&uv[x], n); note_new(uv[x]); }
+  else if(IS("initUIVector")){ int x = tk(t); initUIVector(&uv[x]); note_new(uv[x]); }
+  else if(IS("DelUIVector")){ int x = tk(t); note_free(uv[x]); DelUIVector(&uv[x]); uv[x] = NULL; }
   else if(IS("UIVectorResize")){ int x = tk(t), n = tk(t); UIVectorResize(uv[x], n); }
-  else if(IS("UIVectorAppend")){ int x = tk(t); long v = tk(t); UIVectorAppend(uv[x], (size_t)v); }
+  else if(IS("UIVectorAppend")){ int x = tk(t); long v = tk(t); UIVectorAppend(uv[x], pal_u(v)); }
   else if(IS("UIVectorRemoveAt")){ int x = tk(t); size_t i = ix(tk(t)); UIVectorRemoveAt(uv[x], i); }
-  else if(IS("UIVectorExtend")){ int a = tk(t), b = tk(t), y = tk(t); uv[y] = UIVectorExtend(uv[a], uv[b]); }
-  else if(IS("setUIVectorValue")){ int x = tk(t); size_t i = ix(tk(t)); long v = tk(t); setUIVectorValue(uv[x], i, (size_t)v); }
-  else if(IS("getUIVectorValue")){ int x = tk(t); size_t i = ix(tk(t)); size_t r = getUIVectorValue(uv[x], i); if(!oor) RETCHK(r, "%zu"); }
-  else if(IS("UIVectorHasValue")){ int x = tk(t); long v = tk(t); int r = UIVectorHasValue(uv[x], (size_t)v); RETCHK(r, "%d"); }
-  else if(IS("UIVectorIndexOf")){ int x = tk(t); long v = tk(t); int r = UIVectorIndexOf(uv[x], (size_t)v); RETCHK(r, "%d"); }
-  else if(IS("UIVectorSet")){ int x = tk(t); long v = tk(t); UIVectorSet(uv[x], (size_t)v); }
-  else if(IS("SortUIVector")){ int x = tk(t); SortUIVector(uv[x]); }
+  else if(IS("UIVectorExtend")){ int a = tk(t), b = tk(t), y = tk(t); uv[y] = UIVectorExtend(uv[a], uv[b]); note_new(uv[y]); }
+  else if(IS("setUIVectorValue")){ int x = tk(t); size_t i = ix(tk(t)); long v = tk(t); setUIVectorValue(uv[x], i, pal_u(v)); }
+  else if(IS("getUIVectorValue")){ int x = tk(t); size_t i = ix(tk(t)); size_t r = getUIVectorValue(uv[x], i); if(!oor){ long w = tk(t); if(r != pal_u(w)){ snprintf(sh->what, sizeof sh->what, "getUIVectorValue returned %zu want %zu", r, pal_u(w)); return RC_MISMATCH; } } }
+  else if(IS("UIVectorHasValue")){ int x = tk(t); long v = tk(t); int r = UIVectorHasValue(uv[x], pal_u(v)); RETCHK(r, "%d"); }
+  else if(IS("UIVectorIndexOf")){ int x = tk(t); long v = tk(t); int r = UIVectorIndexOf(uv[x], pal_u(v)); RETCHK(r, "%d"); }
+  else if(IS("UIVectorSet")){ int x = tk(t); long v = tk(t); UIVectorSet(uv[x], pal_u(v)); }
+  else if(IS("SortUIVector")){ int x = tk(t);
+    obs_head("SortVec"); fprintf(obs, "\"kind\":\"uv\",\"pre\":["); for(size_t i = 0; i < uv[x]->size; i++) fprintf(obs, "%s%ld", i ? "," : "", code_u(uv[x]->data[i])); fprintf(obs, "],");
+    SortUIVector(uv[x]);
+    fprintf(obs, "\"post\":["); for(size_t i = 0; i < uv[x]->size; i++) fprintf(obs, "%s%ld", i ? "," : "", code_u(uv[x]->data[i])); fprintf(obs, "]}\n"); fflush(obs); }
+  else if(IS("PrintUIVector")){ int x = tk(t); PrintUIVector(uv[x]); }
   /* ---- ivector */
-  else if(IS("NewIVector")){ int x = tk(t), n = tk(t); NewIVector(&iv[x], n); }
-  else if(IS("initIVector")){ int x = tk(t); initIVector(&iv[x]); }
-  else if(IS("DelIVector")){ int x = tk(t); DelIVector(&iv[x]); iv[x] = NULL; }
-  else if(IS("IVectorAppend")){ int x = tk(t); long v = tk(t); IVectorAppend(iv[x], (int)v); }
+  else if(IS("NewIVector")){ int x = tk(t), n = tk(t); NewIVector(&iv[x], n); note_new(iv[x]); }
+  else if(IS("initIVector")){ int x = tk(t); initIVector(&iv[x]); note_new(iv[x]); }
+  else if(IS("DelIVector")){ int x = tk(t); note_free(iv[x]); DelIVector(&iv[x]); iv[x] = NULL; }
+  else if(IS("IVectorAppend")){ int x = tk(t); long v = tk(t); IVectorAppend(iv[x], pal_i(v)); }
   else if(IS("IVectorRemoveAt")){ int x = tk(t); size_t i = ix(tk(t)); IVectorRemoveAt(iv[x], i); }
-  else if(IS("IVectorExtend")){ int a = tk(t), b = tk(t), y = tk(t); iv[y] = IVectorExtend(iv[a], iv[b]); }
-  else if(IS("setIVectorValue")){ int x = tk(t); size_t i = ix(tk(t)); long v = tk(t); setIVectorValue(iv[x], i, (int)v); }
-  else if(IS("getIVectorValue")){ int x = tk(t); size_t i = ix(tk(t)); int r = getIVectorValue(iv[x], i); if(!oor) RETCHK(r, "%d"); }
-  else if(IS("IVectorHasValue")){ int x = tk(t); long v = tk(t); int r = IVectorHasValue(iv[x], (int)v); RETCHK(r, "%d"); }
-  else if(IS("IVectorSet")){ int x = tk(t); long v = tk(t); IVectorSet(iv[x], (int)v); }
-  /* ---- strvector */
-  else if(IS("initStrVector")){ int x = tk(t); initStrVector(&sv[x]); }
-  else if(IS("NewStrVector")){ int x = tk(t), n = tk(t); NewStrVector(&sv[x], n); }
-  else if(IS("DelStrVector")){ int x = tk(t); DelStrVector(&sv[x]); sv[x] = NULL; }
+  else if(IS("IVectorExtend")){ int a = tk(t), b = tk(t), y = tk(t); iv[y] = IVectorExtend(iv[a], iv[b]); note_new(iv[y]); }
+  else if(IS("setIVectorValue")){ int x = tk(t); size_t i = ix(tk(t)); long v = tk(t); setIVectorValue(iv[x], i, pal_i(v)); }
+  else if(IS("getIVectorValue")){ int x = tk(t); size_t i = ix(tk(t)); int r = getIVectorValue(iv[x], i); if(!oor){ long w = tk(t); if(r != pal_i(w)){ snprintf(sh->what, sizeof sh->what, "getIVectorValue returned %d want %d", r, pal_i(w)); return RC_MISMATCH; } } }
+  else if(IS("IVectorHasValue")){ int x = tk(t); long v = tk(t); int r = IVectorHasValue(iv[x], pal_i(v)); RETCHK(r, "%d"); }
+  else if(IS("IVectorSet")){ int x = tk(t); long v = tk(t); IVectorSet(iv[x], pal_i(v)); }
+  else if(IS("PrintIVector")){ int x = tk(t); PrintIVector(iv[x]); }
+  /* ---- strvector (integers given to AppendInt / AppendDouble are the codes themselves: the model computes the strings) */
+  else if(IS("initStrVector")){ int x = tk(t); initStrVector(&sv[x]); note_new(sv[x]); }
+  else if(IS("NewStrVector")){ int x = tk(t), n = tk(t); NewStrVector(&sv[x], n); note_new(sv[x]); }
+  else if(IS("DelStrVector")){ int x = tk(t); note_free(sv[x]); DelStrVector(&sv[x]); sv[x] = NULL; }
   else if(IS("StrVectorResize")){ int x = tk(t), n = tk(t); StrVectorResize(sv[x], n); }
   else if(IS("StrVectorAppend")){ int x = tk(t), s = tk(t); StrVectorAppend(sv[x], strtab[s]); }
   else if(IS("StrVectorAppendInt")){ int x = tk(t); long v = tk(t); StrVectorAppendInt(sv[x], (int)v); }
   else if(IS("StrVectorAppendDouble")){ int x = tk(t); long v = tk(t); StrVectorAppendDouble(sv[x], (double)v); }
   else if(IS("setStr")){ int x = tk(t), i = tk(t), s = tk(t); setStr(sv[x], i, strtab[s]); }
   else if(IS("getStr")){ int x = tk(t), i = tk(t), s = tk(t); char *r = getStr(sv[x], i); if(r == NULL || strcmp(r, strtab[s]) != 0){ snprintf(sh->what, sizeof sh->what, "getStr returned \"%.40s\" want \"%s\"", r ? r : "(null)", strtab[s]); return RC_MISMATCH; } }
-  else if(IS("StrVectorExtend")){ int a = tk(t), b = tk(t), y = tk(t); sv[y] = StrVectorExtend(sv[a], sv[b]); }
+  else if(IS("StrVectorExtend")){ int a = tk(t), b = tk(t), y = tk(t); sv[y] = StrVectorExtend(sv[a], sv[b]); note_new(sv[y]); }
+  else if(IS("StrVectorAppend:own")){ int x = tk(t), k = tk(t); StrVectorAppend(sv[x], getStr(sv[x], k)); }
+  else if(IS("setStr:own")){ int x = tk(t), i = tk(t), k = tk(t); setStr(sv[x], i, getStr(sv[x], k)); }
+  else if(IS("PrintStrVector")){ int x = tk(t); PrintStrVector(sv[x]); }
+  else if(IS("SplitString")){ int x = tk(t); char *str = split_arg(t); SplitString(str, ";", sv[x]); }
   /* ---- matrix */
-  else if(IS("initMatrix")){ int x = tk(t); initMatrix(&mx[x]); }
-  else if(IS("NewMatrix")){ int x = tk(t), r = tk(t), c = tk(t); NewMatrix(&mx[x], r, c); }
-  else if(IS("DelMatrix")){ int x = tk(t); DelMatrix(&mx[x]); mx[x] = NULL; }
+  else if(IS("initMatrix")){ int x = tk(t); initMatrix(&mx[x]); note_new(mx[x]); }
+  else if(IS("NewMatrix")){ int x = tk(t), r = tk(t), c = tk(t); NewMatrix(&mx[x], r, c); note_new(mx[x]); }
+  else if(IS("DelMatrix")){ int x = tk(t); note_free(mx[x]); DelMatrix(&mx[x]); mx[x] = NULL; }
   else if(IS("ResizeMatrix")){ int x = tk(t), r = tk(t), c = tk(t); ResizeMatrix(mx[x], r, c); }
-  else if(IS("MatrixSet")){ int x = tk(t); long v = tk(t); MatrixSet(mx[x], (double)v); }
+  else if(IS("MatrixSet")){ int x = tk(t); long v = tk(t); MatrixSet(mx[x], pal_d(v)); }
   else if(IS("MatrixCopy")){ int s = tk(t), d = tk(t); MatrixCopy(mx[s], &mx[d]); }
-  else if(IS("setMatrixValue")){ int x = tk(t); size_t i = ix(tk(t)), j = ix(tk(t)); long v = tk(t); setMatrixValue(mx[x], i, j, (double)v); }
+  else if(IS("setMatrixValue")){ int x = tk(t); size_t i = ix(tk(t)), j = ix(tk(t)); long v = tk(t); setMatrixValue(mx[x], i, j, pal_d(v)); }
   else if(IS("getMatrixValue")){ int x = tk(t); size_t i = ix(tk(t)), j = ix(tk(t)); double r = getMatrixValue(mx[x], i, j);
-    if(!oor){ long w = tk(t); if(!(r == (double)w)){ snprintf(sh->what, sizeof sh->what, "getMatrixValue returned %g want %ld", r, w); return RC_MISMATCH; } }
+    if(!oor){ long w = tk(t); if(!(r == pal_d(w))){ snprintf(sh->what, sizeof sh->what, "getMatrixValue returned %.17g want %.17g", r, pal_d(w)); return RC_MISMATCH; } }
     /* out of range: the code returns NaN after its message; the header documents no sentinel, so any returned value is accepted */ }
   else if(IS("getMatrixRow")){ int x = tk(t); size_t i = ix(tk(t)); dvector *r = getMatrixRow(mx[x], i);
-    if(!oor){ int y = tk(t); dv[y] = r; if(r == NULL){ snprintf(sh->what, sizeof sh->what, "getMatrixRow returned NULL for a valid row"); return RC_MISMATCH; } }
+    if(!oor){ int y = tk(t); dv[y] = r; note_new(r); if(r == NULL){ snprintf(sh->what, sizeof sh->what, "getMatrixRow returned NULL for a valid row"); return RC_MISMATCH; } }
     else if(r != NULL){ snprintf(sh->what, sizeof sh->what, "getMatrixRow out of range returned a vector instead of NULL"); return RC_MISMATCH; } }
   else if(IS("getMatrixColumn")){ int x = tk(t); size_t j = ix(tk(t)); dvector *r = getMatrixColumn(mx[x], j);
-    if(!oor){ int y = tk(t); dv[y] = r; if(r == NULL){ snprintf(sh->what, sizeof sh->what, "getMatrixColumn returned NULL for a valid column"); return RC_MISMATCH; } }
+    if(!oor){ int y = tk(t); dv[y] = r; note_new(r); if(r == NULL){ snprintf(sh->what, sizeof sh->what, "getMatrixColumn returned NULL for a valid column"); return RC_MISMATCH; } }
     else if(r != NULL){ snprintf(sh->what, sizeof sh->what, "getMatrixColumn out of range returned a vector instead of NULL"); return RC_MISMATCH; } }
-  else if(IS("MatrixAppendRow")){ int x = tk(t); dvector *v = mk_dv(t); MatrixAppendRow(mx[x], v); DelDVector(&v); }
-  else if(IS("MatrixAppendCol")){ int x = tk(t); dvector *v = mk_dv(t); MatrixAppendCol(mx[x], v); DelDVector(&v); }
-  else if(IS("MatrixAppendUIRow")){ int x = tk(t); uivector *v = mk_uv(t); MatrixAppendUIRow(mx[x], v); DelUIVector(&v); }
-  else if(IS("MatrixAppendUICol")){ int x = tk(t); uivector *v = mk_uv(t); MatrixAppendUICol(mx[x], v); DelUIVector(&v); }
+  else if(IS("MatrixAppendRow")){ int x = tk(t); dvector *v = mk_dv(t); MatrixAppendRow(mx[x], v); int rc_ = same_dv(name, v); DelDVector(&v); if(rc_) return rc_; }
+  else if(IS("MatrixAppendCol")){ int x = tk(t); dvector *v = mk_dv(t); MatrixAppendCol(mx[x], v); int rc_ = same_dv(name, v); DelDVector(&v); if(rc_) return rc_; }
+  else if(IS("MatrixAppendUIRow")){ int x = tk(t); uivector *v = mk_uv(t); MatrixAppendUIRow(mx[x], v); int rc_ = same_uv(name, v); DelUIVector(&v); if(rc_) return rc_; }
+  else if(IS("MatrixAppendUICol")){ int x = tk(t); uivector *v = mk_uv(t); MatrixAppendUICol(mx[x], v); int rc_ = same_uv(name, v); DelUIVector(&v); if(rc_) return rc_; }
   else if(IS("MatrixDeleteRowAt")){ int x = tk(t), k = tk(t); MatrixDeleteRowAt(mx[x], k); }
   else if(IS("MatrixDeleteColAt")){ int x = tk(t), k = tk(t); MatrixDeleteColAt(mx[x], k); }
+  else if(IS("MatrixSort") || IS("MatrixReverseSort")){ int x = tk(t), j = tk(t), rev = IS("MatrixReverseSort"); sorted_slot = x;
+    obs_head("SortMx"); fprintf(obs, "\"col\":%d,\"rev\":%d,\"ncol\":%zu,", j, rev, mx[x]->col); obs_mat("pre", mx[x]); fprintf(obs, ",");
+    if(rev) MatrixReverseSort(mx[x], j); else MatrixSort(mx[x], j);
+    obs_mat("post", mx[x]); fprintf(obs, "}\n"); fflush(obs); }
+  else if(IS("MatrixColumnMinMax")){ int x = tk(t); size_t j = ix(tk(t)); double lo = -7.25, hi = -7.25; MatrixColumnMinMax(mx[x], j, &lo, &hi);
+    if(!oor){ long wl = tk(t), wh = tk(t); if(!(lo == pal_d(wl) && hi == pal_d(wh))) EXTRA("MatrixColumnMinMax(column %zu) returned min %.17g max %.17g, the column holds min %.17g max %.17g", j, lo, hi, pal_d(wl), pal_d(wh)); }
+    /* out of range / no rows: "Get Column Max Min Error" and the missing-value sentinel; any returned value is accepted */ }
+  else if(IS("ValInMatrix")){ int x = tk(t); long v = tk(t); int r = ValInMatrix(mx[x], pal_d(v)); long w = tk(t);
+    if(r != (int)w) EXTRA("ValInMatrix(%.17g) returned %d, the model says %ld (a cell %s that value)", pal_d(v), r, w, w ? "holds" : "does not hold"); }
+  else if(IS("PrintMatrix")){ int x = tk(t); PrintMatrix(mx[x]); }
   /* ---- tensor */
-  else if(IS("initTensor")){ int x = tk(t); initTensor(&tn[x]); }
-  else if(IS("NewTensor")){ int x = tk(t), n = tk(t); NewTensor(&tn[x], n); }
+  else if(IS("initTensor")){ int x = tk(t); initTensor(&tn[x]); note_new(tn[x]); }
+  else if(IS("NewTensor")){ int x = tk(t), n = tk(t); NewTensor(&tn[x], n); note_new(tn[x]); }
   else if(IS("NewTensorMatrix")){ int x = tk(t), k = tk(t), r = tk(t), c = tk(t); NewTensorMatrix(tn[x], k, r, c); }
   else if(IS("AddTensorMatrix")){ int x = tk(t), r = tk(t), c = tk(t); AddTensorMatrix(tn[x], r, c); }
-  else if(IS("DelTensor")){ int x = tk(t); DelTensor(&tn[x]); tn[x] = NULL; }
-  else if(IS("setTensorValue")){ int x = tk(t); size_t k = ix(tk(t)), i = ix(tk(t)), j = ix(tk(t)); long v = tk(t); setTensorValue(tn[x], k, i, j, (double)v); }
+  else if(IS("DelTensor")){ int x = tk(t); note_free(tn[x]); DelTensor(&tn[x]); tn[x] = NULL; }
+  else if(IS("setTensorValue")){ int x = tk(t); size_t k = ix(tk(t)), i = ix(tk(t)), j = ix(tk(t)); long v = tk(t); setTensorValue(tn[x], k, i, j, pal_d(v)); }
   else if(IS("getTensorValue")){ int x = tk(t); size_t k = ix(tk(t)), i = ix(tk(t)), j = ix(tk(t)); double r = getTensorValue(tn[x], k, i, j);
-    if(!oor){ long w = tk(t); if(!(r == (double)w)){ snprintf(sh->what, sizeof sh->what, "getTensorValue returned %g want %ld", r, w); return RC_MISMATCH; } }
+    if(!oor){ long w = tk(t); if(!(r == pal_d(w))){ snprintf(sh->what, sizeof sh->what, "getTensorValue returned %.17g want %.17g", r, pal_d(w)); return RC_MISMATCH; } }
     /* out of range: NaN today, any value accepted (see getMatrixValue) */ }
-  else if(IS("TensorAppendMatrix")){ int x = tk(t), r = tk(t), c = tk(t); matrix *m; NewMatrix(&m, r, c); for(int i = 0; i < r; i++) for(int j = 0; j < c; j++) m->data[i][j] = (double)tk(t); TensorAppendMatrix(tn[x], m); DelMatrix(&m); }
-  else if(IS("TensorAppendColumn")){ int x = tk(t), k = tk(t); dvector *v = mk_dv(t); TensorAppendColumn(tn[x], k, v); DelDVector(&v); }
-  else if(IS("TensorSet")){ int x = tk(t); long v = tk(t); TensorSet(tn[x], (double)v); }
+  else if(IS("TensorAppendMatrix")){ int x = tk(t), r = tk(t), c = tk(t); dimchk(r); dimchk(c); matrix *m; NewMatrix(&m, r, c); for(int i = 0; i < r; i++) for(int j = 0; j < c; j++) opnd_d[i * c + j] = m->data[i][j] = pal_d(tk(t));
+    TensorAppendMatrix(tn[x], m);
+    int rc_ = 0; if((int)m->row != r || (int)m->col != c){ snprintf(sh->what, sizeof sh->what, "TensorAppendMatrix changed the shape of its operand matrix"); rc_ = RC_MISMATCH; }
+    for(int i = 0; i < r && !rc_; i++) for(int j = 0; j < c; j++) if(!(m->data[i][j] == opnd_d[i * c + j])){ snprintf(sh->what, sizeof sh->what, "TensorAppendMatrix changed cell [%d][%d] of its operand matrix", i, j); rc_ = RC_MISMATCH; break; }
+    DelMatrix(&m); if(rc_) return rc_; }
+  else if(IS("TensorAppendMatrix:own")){ int x = tk(t), k = tk(t); TensorAppendMatrix(tn[x], tn[x]->m[k]); }
+  else if(IS("TensorAppendColumn")){ int x = tk(t), k = tk(t); dvector *v = mk_dv(t); TensorAppendColumn(tn[x], k, v); int rc_ = same_dv(name, v); DelDVector(&v); if(rc_) return rc_; }
+  else if(IS("TensorSet")){ int x = tk(t); long v = tk(t); TensorSet(tn[x], pal_d(v)); }
   else if(IS("TensorCopy")){ int s = tk(t), d = tk(t); TensorCopy(tn[s], &tn[d]); }
+  else if(IS("PrintTensor")){ int x = tk(t); PrintTensor(tn[x]); }
   /* ---- dvectorlist */
-  else if(IS("initDVectorList")){ int x = tk(t); initDVectorList(&dl[x]); }
-  else if(IS("NewDVectorList")){ int x = tk(t), n = tk(t); NewDVectorList(&dl[x], n); }
-  else if(IS("NewDVectorListFilled")){ int x = tk(t), n = tk(t); NewDVectorList(&dl[x], n);
-    for(int q = 0; q < n; q++){ int len = tk(t); NewDVector(&dl[x]->d[q], len); for(int i = 0; i < len; i++) dl[x]->d[q]->data[i] = (double)tk(t); } }
-  else if(IS("DVectorListAppend")){ int x = tk(t); dvector *v = mk_dv(t); DVectorListAppend(dl[x], v); DelDVector(&v); }
-  else if(IS("DelDVectorList")){ int x = tk(t); DelDVectorList(&dl[x]); dl[x] = NULL; }
+  else if(IS("initDVectorList")){ int x = tk(t); initDVectorList(&dl[x]); note_new(dl[x]); }
+  else if(IS("NewDVectorList")){ int x = tk(t), n = tk(t); NewDVectorList(&dl[x], n); note_new(dl[x]); }
+  else if(IS("NewDVectorListFilled")){ int x = tk(t), n = tk(t); NewDVectorList(&dl[x], n); note_new(dl[x]);
+    for(int q = 0; q < n; q++){ int len = tk(t); NewDVector(&dl[x]->d[q], len); for(int i = 0; i < len; i++) dl[x]->d[q]->data[i] = pal_d(tk(t)); } }
+  else if(IS("DVectorListAppend")){ int x = tk(t); dvector *v = mk_dv(t); DVectorListAppend(dl[x], v); int rc_ = same_dv(name, v); DelDVector(&v); if(rc_) return rc_; }
+  else if(IS("DVectorListAppend:own")){ int x = tk(t), k = tk(t); DVectorListAppend(dl[x], dl[x]->d[k]); }
+  else if(IS("DelDVectorList")){ int x = tk(t); note_free(dl[x]); DelDVectorList(&dl[x]); dl[x] = NULL; }
   else { snprintf(sh->what, sizeof sh->what, "script: unknown operation %s", name); _exit(RC_SCRIPT); }
   return 0;
 }
@@ -253,15 +350,15 @@ static void cleanup(void){
 
 /* ---------------------------------------------------------------- one history (child process) */
 static int run_history(char **lines, int nlines){
-  static char *tok[4096];
   int li = 0;
   while(li < nlines){
     char *line = lines[li];
     if(line[0] != 'O'){ li++; continue; }
-    Toks t; t.tok = tok; t.n = split(line, tok, 4096); t.i = 1;
+    Toks t; t.p = line + 1;
     int step = (int)tk(&t); char *name = tks(&t); char *rel = tks(&t); int oor = (int)tk(&t);
     sh->step = step; snprintf(sh->op, sizeof sh->op, "%s", name); snprintf(sh->rel, sizeof sh->rel, "%s", rel); sh->what[0] = 0;
     int rc = 0;
+    sorted_slot = -1;
     if(!oor){
       rc = exec_op(name, 0, &t);
       if(rc) return rc;
@@ -288,7 +385,12 @@ static int run_history(char **lines, int nlines){
     }
     sh->ops++;
     li++;
-    while(li < nlines && lines[li][0] == 'E'){ Toks e; e.tok = tok; e.n = split(lines[li], tok, 4096); e.i = 1; apply_expect(&e); li++; }
+    int sortslot = strcmp(rel, "tie-distinct") == 0 ? sorted_slot : -1;
+    while(li < nlines && lines[li][0] == 'E'){ Toks e; e.p = lines[li] + 1; apply_expect(&e); li++; }
+    if(sortslot >= 0 && mx[sortslot] && (int)mx[sortslot]->row == xm[sortslot].row && (int)mx[sortslot]->col == xm[sortslot].col){
+      /* different rows share the key: any key-ordered permutation is right (TLC judges the observed one); continue from the model's representative */
+      for(int i = 0; i < xm[sortslot].row; i++) for(int j = 0; j < xm[sortslot].col; j++) mx[sortslot]->data[i][j] = pal_d(xm[sortslot].c[i][j]);
+    }
     if((rc = compare_all())) return rc;
     if((rc = alias_check())) return rc;
   }
@@ -318,6 +420,8 @@ int main(int argc, char **argv){
   FILE *in = fopen(argv[1], "r"); if(!in){ perror(argv[1]); return 2; }
   FILE *out = fopen(argv[2], "w"); if(!out){ perror(argv[2]); return 2; }
   char errpath[4096]; snprintf(errpath, sizeof errpath, "%s.err", argv[2]);
+  char obspath[4096]; snprintf(obspath, sizeof obspath, "%s.obs", argv[2]); unlink(obspath);
+  int hpal = PAL_SMALL;
   sh = mmap(NULL, sizeof(Shared), PROT_READ | PROT_WRITE, MAP_SHARED | MAP_ANONYMOUS, -1, 0);
   if(sh == MAP_FAILED){ perror("mmap"); return 2; }
   char **lines = NULL; int nlines = 0, cap = 0; long hid = -1; int nsteps = 0;
@@ -335,14 +439,18 @@ int main(int argc, char **argv){
         if(pid == 0){
           int efd = open(errpath, O_WRONLY | O_CREAT | O_TRUNC, 0644), nfd = open("/dev/null", O_WRONLY);
           if(efd >= 0) dup2(efd, 2);
-          if(nfd >= 0) dup2(nfd, 1);         /* the library reports out-of-range accessors on stdout */
+          if(nfd >= 0) dup2(nfd, 1);         /* the library reports out-of-range accessors on stdout; Print* write there too */
+          obs = fopen(obspath, "a"); if(!obs){ snprintf(sh->what, sizeof sh->what, "script: cannot open %s", obspath); _exit(RC_SCRIPT); }
+          cur_hid = hid; pal = hpal;
           int rc = run_history(lines, nlines);
           fflush(NULL); _exit(rc);
         }
         int st = 0, waited = 0;
         for(long ms = 0; ms < timeout_s * 1000L; ms += 2){ pid_t r = waitpid(pid, &st, WNOHANG); if(r == pid){ waited = 1; break; } usleep(ms < 200 ? 500 : 2000); }
         if(!waited){ kill(pid, SIGKILL); waitpid(pid, &st, 0); }
-        fprintf(out, "{\"h\":%ld,\"steps\":%d,\"ops\":%d,\"oor_abort\":%d,\"oor_ret\":%d,", hid, nsteps, sh->ops, sh->oor_abort, sh->oor_ret);
+        fprintf(out, "{\"h\":%ld,\"steps\":%d,\"ops\":%d,\"oor_abort\":%d,\"oor_ret\":%d,\"reuse\":%d,\"extras\":[", hid, nsteps, sh->ops, sh->oor_abort, sh->oor_ret, sh->reuse);
+        for(int q = 0; q < sh->nextra && q < 4; q++){ if(q) fputc(',', out); json_str(out, sh->extra[q]); }
+        fprintf(out, "],");
         int rc = WIFEXITED(st) ? WEXITSTATUS(st) : -1;
         if(waited && rc == 0) fprintf(out, "\"res\":\"ok\"}\n");
         else{
@@ -357,7 +465,8 @@ int main(int argc, char **argv){
         for(int i = 0; i < nlines; i++) free(lines[i]);
         nlines = 0; nsteps = 0;
       }
-      if(more) hid = strtol(buf + 1, NULL, 10);
+      if(more){ char *rest = NULL; hid = strtol(buf + 1, &rest, 10);
+        hpal = strstr(rest, "huge") ? PAL_HUGE : strstr(rest, "frac") ? PAL_FRAC : PAL_SMALL; }
       continue;
     }
     if(strncmp(buf, "STR ", 4) == 0){
